@@ -1,5 +1,5 @@
 """C10  Decoding is incremental: one byte of look-ahead, prefix-stable, source-agnostic (crash-point enumeration)."""
-from .. import cases, impl, loader, oracle
+from .. import bscope, cases, impl, loader, oracle
 from ..ref import values as V
 from ..runner import Acc
 
@@ -11,10 +11,15 @@ ASSUMPTIONS = [
 ]
 
 
+B_STRICT = ('look-ahead', 'prefix-stability', 'pulled')
+B_WARN = ()
+
+
 def units(tier, seed):
     us = cases.fault_units(tier, seed, with_prims=True)
     for u in us:
         u["seed"], u["tier"] = seed, tier
+    us += bscope.units(tier, seed)
     return us
 
 
@@ -134,6 +139,8 @@ def check_case(acc, case, unit):
 
 
 def run_unit(unit):
+    if unit["kind"] == "bscope":
+        return bscope.run_b_unit(unit, strict_own=B_STRICT, warn_props=B_WARN)
     acc = Acc()
     loader.load()
     cases.explore_unit(unit, unit["seed"], lambda c: check_case(acc, c, unit), acc)
@@ -157,6 +164,8 @@ def finish(acc, tier, seed):
 
 
 def replay(case):
+    if case.get("harness") == "bytestep":
+        return bscope.replay(case, strict_own=B_STRICT, warn_props=B_WARN)
     acc = Acc()
     loader.load()
     # replay needs the whole base case: recover it from the recorded unit-independent description
